@@ -48,7 +48,8 @@ META = {
     "level_note": "Clause-level only. The correctness and completeness of the matching search itself (the property text "
                   "reports a genuine defect: augmenting paths without blossom contraction), the pruning arithmetic and "
                   "atom-order independence are value-level and are NOT decided by this check.",
-    "technique": "must-check-result dataflow + who-may-write frame rule + paired-store rule + must-pass-through dataflow",
+    "technique": "must-check-result dataflow + who-may-write frame rule + paired-store rule + must-pass-through dataflow + abstract "
+                 "interpretation of the pruning predicate on a finite table of atom kinds + may-dataflow phase ordering of the write-back",
 }
 
 MG = "selfies.mol_graph.MolecularGraph"
